@@ -1216,6 +1216,8 @@ class Tr:
                 return self.apply(f, "U." + m, args, env, recv=recv)
             b2, a2, t2 = self.apply(f, "U." + m, args, env, recv=("__atom", paren(ar)))
             return br + b2, a2, t2
+        if m == "unwrap_or_default" and tr_ == ("option", "uint") and "BITS" in env:
+            return br, "(match %s with Some x_ => x_ | None => uZERO BITS end)" % ar, "uint"
         if m == "unwrap" and isinstance(tr_, tuple) and tr_[0] == "option":
             f.impure = True
             v = f.fresh()
@@ -2184,6 +2186,10 @@ TARGETS = [
     ("src/algorithms/gcd/mod.rs", None, "gcd", "gcd", "g_alg_gcd", None),
     ("src/algorithms/gcd/mod.rs", None, "gcd_extended", "gcd_extended", "g_alg_gcd_extended", None),
     ("src/algorithms/gcd/mod.rs", None, "inv_mod", "inv_mod", "g_alg_inv_mod", None),
+    ("src/gcd.rs", UINT_IMPL, "gcd", "U.gcd", "g_u_gcd", "uint"),
+    ("src/gcd.rs", UINT_IMPL, "lcm", "U.lcm", "g_u_lcm", "uint"),
+    ("src/gcd.rs", UINT_IMPL, "gcd_extended", "U.gcd_extended", "g_u_gcd_extended", "uint"),
+    ("src/modular.rs", UINT_IMPL, "inv_mod", "U.inv_mod", "g_u_inv_mod", "uint"),
     ("src/modular.rs", UINT_IMPL, "reduce_mod", "U.reduce_mod", "g_reduce_mod", "uint"),
     ("src/modular.rs", UINT_IMPL, "add_mod", "U.add_mod", "g_add_mod", "uint"),
     ("src/modular.rs", UINT_IMPL, "mul_redc", "U.mul_redc", "g_u_mul_redc", "uint"),
